@@ -14,6 +14,7 @@ use crate::{
     compression,
     crypto::{decrypt_block, hash_string, hash_type},
     header::{self, MpqHeader, UserDataHeader},
+    io::read_exact_vec,
     special_files,
     tables::{BetTable, BlockTable, HashTable, HetTable, HiBlockTable},
 };
@@ -827,9 +828,8 @@ impl Archive {
             // Read raw table data
             self.reader
                 .seek(SeekFrom::Start(self.archive_offset + offset))?;
-            let mut table_data = vec![0u8; size as usize];
-            match self.reader.read_exact(&mut table_data) {
-                Ok(_) => {
+            match read_exact_vec(&mut self.reader, size) {
+                Ok(table_data) => {
                     // Calculate MD5
                     let mut hasher = Md5::new();
                     hasher.update(&table_data);
